@@ -71,12 +71,12 @@ let () = register "cache" (fun args ->
           | [ "iter" ] -> call OIter false; None
           | [ "clear" ] -> call OClear true; None
           | [ "close" ] -> call OClose true; None
-          | "closeset" :: k :: c :: v :: cost :: pass ->
+          | (("closeset" | "clearset") as which) :: k :: c :: v :: cost :: pass ->
               (* Close (buffer empty) during which, right after the first OnExit it delivers, another thread
                  issues a Set *)
               Hashtbl.replace costs (n_of_string v) (z_of_string cost);
               let ctid = nat_of_int tid in
-              (match mstep cfg !st (LCall (ctid, OClose)) with Some s -> st := s | None -> ());
+              (match mstep cfg !st (LCall (ctid, (if which = "closeset" then OClose else OClear))) with Some s -> st := s | None -> ());
               let exited s = List.exists (function ECb (Some t, CbExit u) -> t = ctid && u <> N0 | _ -> false)
                   (list_take (int_of_nat (length s.s_log) - before) s.s_log) in
               let fuel = ref 10000 and stuck = ref false in
@@ -86,7 +86,9 @@ let () = register "cache" (fun args ->
               done;
               if exited !st then begin
                 let rtid = nat_of_int (2000 + tid) in
-                (match mstep cfg !st (LCall (rtid, OSet (n_of_string k, n_of_string c, n_of_string v, Z0, Z0))) with
+                (* "x": the re-entrant Set passes an explicit cost (its item is not gated) *)
+                (match mstep cfg !st (LCall (rtid, OSet (n_of_string k, n_of_string c, n_of_string v,
+                                                        (if List.mem "x" pass then z_of_string cost else Z0), Z0))) with
                  | Some s -> st := run_client cfg (nat_of_int 1000) s rtid
                  | None -> ());
                 let okres = List.exists (function ERet (t, _, RBool true) -> t = rtid | _ -> false)
@@ -103,7 +105,7 @@ let () = register "cache" (fun args ->
               done;
               if thread_busy !st ctid then blocked := (tid, true) :: !blocked;
               st := settle cfg (nat_of_int 1000) !st
-                  (if !st.s_buf = [] || pass = [ "pass" ] then all_blocked () else nonclear_blocked ());
+                  (if !st.s_buf = [] || List.mem "pass" pass then all_blocked () else nonclear_blocked ());
               None
           | [ "rem" ] -> call ORem false; None
           | [ "max" ] -> call OMax false; None
